@@ -304,6 +304,12 @@ fn main() {
         if t.is_empty() || t[0] == "ORACLE" || t[0].starts_with('#') {
             continue;
         }
+        if t[0] == "SEED" {
+            verif::set_choice_seed(if t[1] == "-" { None } else { Some(t[1].parse().unwrap()) });
+            writeln!(out, "OK").unwrap();
+            out.flush().unwrap();
+            continue;
+        }
         if t[0] == "NEW" {
             let strategy = match t[5] {
                 "rr" => Strategy::RoundRobin,
